@@ -57,6 +57,12 @@ both('conds', ['relation p(i32, i32)', 'relation o(Option<i32>, i32)', 'relation
       'res(x, y) <-- foo(x, y) let s = x + y if s > 2, bar(y, z)',
       'q(*v) <-- p(x, y), o(w, y) if let Some(v) = w',
       'res(x, w) <-- foo(x, y), for w in 0..*y, if w > 1'], tags=['conds'])
+both('attached_let', ['relation foo(i32, i32)', 'relation bar(i32, i32)', 'relation res(i32, i32)'],
+     ['res(x, y) <-- foo(x, a) let k = a + 1, bar(k, y)', 'res(x, y) <-- foo(x, a) let k = a + 1 if k > 3, bar(y, k)',
+      'res(x, y) <-- foo(x, a) if let Some(k) = Some(a + 1), bar(k, y)'], tags=['conds'])
+P('attached_let_run', ['relation foo(i32, i32)', 'relation bar(i32, i32)', 'relation res(i32, i32)'],
+  ['foo(*a, *b) <-- for (a, b) in input.iter()', 'res(x, y) <-- foo(x, a) let k = a + 1, bar(k, y)'],
+  macro='ascent_run', params='input: &[(i32, i32)], k: i32', tags=['conds', 'run'])
 both('at_pat', ['relation item(Option<i32>)', 'relation val(i32, i32)', 'relation hit(Option<i32>, i32)', 'relation o(Option<i32>, i32)'],
      ['hit(whole.clone(), z) <-- item(?whole @ Some(y)), val(y, z)', 'hit(w.clone(), z) <-- o(w, x), if let all @ Some(y) = w, val(y, z), if all.is_some()'],
      tags=['patarg', 'conds'])
@@ -677,6 +683,8 @@ def _crate_of(p):
         return 'corpus_byods'
     if 'lattice' in t:
         return 'corpus_lat'
+    if p['macro'] in ('ascent_run', 'ascent_run_par'):
+        return 'corpus_run'
     if t & {'agg', 'neg', 'timeout'}:
         return 'corpus_strata'
     return 'corpus_core'
